@@ -213,9 +213,9 @@ def run(ctx):
     finally:
         os.remove(cfgp)
     ctx.add_tlc(r, e1=True)
-    ctx.add_tlc(vlib.tlc("GaussStop", cfg="GaussStop.cfg", workers=2, timeout=600, deque=False), e1=True)
+    ctx.add_tlc(vlib.tlc("MC_GaussStop", workers=2, timeout=600, deque=False), e1=True)
     ctx.add_tlc(vlib.tlc("MC_RombergP", workers=2, timeout=600, deque=False), e1=True)
-    ctx.add_tlc(vlib.tlc("TanhSinhStop", cfg="TanhSinhStop.cfg", workers=2, timeout=600, deque=False), e1=True)
+    ctx.add_tlc(vlib.tlc("MC_TanhSinhStop", workers=2, timeout=600, deque=False), e1=True)
     judge(ctx, gen(ctx, rng, 1600 if ctx.tier == "quick" else 16000))
     ctx.rule = ("8 routines x seeded integrands (polynomials, a e^{cx}, a sin(wx+p), a e^{i(wx+p)}) with closed-form integrals, intervals of "
                 "length 0.05..4 in [-5,5], tol 1e-11..1e-3, real and complex; reversed / empty intervals and negative tolerances; Romberg on "
